@@ -68,3 +68,34 @@ def relclose(x, y, ulps):
     from fractions import Fraction
     e = Fraction(ulps, 2 ** 53)
     return exact(lambda: And(x - y <= e * abs(y), y - x <= e * abs(y)))
+
+
+FRAME = 'setigen.frame:Frame'
+
+
+def frame_obj(vc, asc, prefix='', cls_key=FRAME, data=None, T0=None, waterfall=None, extra_meta=None):
+    """A Frame heap object satisfying the frame invariant FI (precondition of every Frame method)."""
+    n, T = Int(prefix + 'fchans'), Int(prefix + 'tchans')
+    df, dt, fmin = Real(prefix + 'df'), Real(prefix + 'dt'), Real(prefix + 'fmin')
+    vc.assume(And(n >= 1, T >= 1, df > 0, dt > 0, fmin > 0))
+    fmax = fmin + (n - 1) * df
+    if data is None:
+        data = symbolic_array(prefix + 'data', (T, n))
+    t0 = 0 if T0 is None else T0
+    fs = SArr((n,), lambda idx: fmin + idx[0] * df, 'real')
+    ts = SArr((T,), lambda idx: t0 + idx[0] * dt, 'real')
+    meta = {'fchans': n, 'tchans': T, 'df': df, 'dt': dt, 'fch1': (fmin if asc else fmax), 'ascending': asc}
+    if extra_meta:
+        meta.update(extra_meta)
+    rng = L.RNG('seed', Int(prefix + 'rng_stream'))
+    rng.pos = Int(prefix + 'rng_pos')
+    f = mkobj(vc, cls_key, fchans=n, tchans=T, shape=(T, n), df=df, dt=dt, fmin=fmin, fmax=fmax,
+              fch1=(fmin if asc else fmax), ascending=asc, data=data, fs=fs, ts=ts, rng=rng,
+              t_start=Real(prefix + 't_start'), source_name=I.SStr(Int(prefix + 'name_len'), None, tag=('source_name', prefix)),
+              noise_mean=Real(prefix + 'noise_mean'), noise_std=Real(prefix + 'noise_std'), metadata=meta,
+              waterfall=waterfall, header=None, unit_drift_rate=df / dt, chi2_df=4 * round_half_even(df * dt))
+    return f, dict(n=n, T=T, df=df, dt=dt, fmin=fmin, fmax=fmax, asc=asc, data=data, fs=fs, ts=ts, rng=rng)
+
+
+def fresh_idx(*names):
+    return [Int(n) for n in names]
